@@ -10,6 +10,7 @@ import (
 	"hash/fnv"
 	"os"
 	"runtime/debug"
+	"runtime/pprof"
 	"sort"
 	"strconv"
 	"strings"
@@ -93,9 +94,9 @@ func (c *Ctx) Expired() bool {
 	return c.hit
 }
 
-func (c *Ctx) Eval()                  { c.R.Evaluations++ }
-func (c *Ctx) EvalN(n int64)          { c.R.Evaluations += n }
-func (c *Ctx) Nontrivial()            { c.R.Nontrivial++ }
+func (c *Ctx) Eval()                   { c.R.Evaluations++ }
+func (c *Ctx) EvalN(n int64)           { c.R.Evaluations += n }
+func (c *Ctx) Nontrivial()             { c.R.Nontrivial++ }
 func (c *Ctx) Count(k string, d int64) { c.R.Counters[k] += d }
 func (c *Ctx) Bound(k string, v interface{}) {
 	c.R.Bounds[k] = v
@@ -271,7 +272,14 @@ func Main(checks map[string]CheckFunc) {
 		Counters: map[string]int64{}, ViolationKeys: map[string]int64{}, Bounds: map[string]interface{}{},
 		Outcomes: map[string]int64{}}
 	c.start = time.Now()
+	if pf := os.Getenv("VERIF_PROF"); pf != "" {
+		if fh, err := os.Create(pf); err == nil {
+			pprof.StartCPUProfile(fh)
+			defer pprof.StopCPUProfile()
+		}
+	}
 	f(c)
+	pprof.StopCPUProfile()
 	c.R.WallS = time.Since(c.start).Seconds()
 	c.R.Exhaustive = !c.hit
 	c.R.Completed = true
